@@ -35,6 +35,7 @@ def gen_seqs(chk, ops, depth, norepeat, label):
 
 
 REQ_OPS = ["send", "recv", "recv_poll", "recv_drop", "preply", "punsol", "attach2"]
+REQ_OPS_GONE = ["send", "recv", "preply", "attach2", "pclose1", "recv_drop"]      # histories in which a peer vanishes
 REP_OPS = ["req1", "req2", "recv", "recv_poll", "recv_drop", "send", "bad1"]
 
 
@@ -54,6 +55,9 @@ def req_script(seq, scen):
         elif o == "attach2":
             if not two:
                 ops.append({"op": "attach", "c": 2, "ptype": "ROUTER"}); two = True
+        elif o == "pclose1":
+            # the first peer goes away (orderly close), possibly owing a reply; its id may still sit in the rotation
+            ops.append({"op": "pclose", "c": 1})
         else:
             ops.append({"op": o})
     ops += [{"op": "quiescent"}, {"op": "recv_drop"}, {"op": "send", "m": [hx("final")]}, {"op": "preply", "m": [hx(""), hx("rfinal")]}, {"op": "recv"}, {"op": "quiescent"}, {"op": "recv_drop"}]
